@@ -139,7 +139,7 @@ SPECS["actor.rs::run_actor_lifecycle"] = dict(
 
 # ------------------------------------------------------------------ ActorRef basics
 SPECS["actor_ref.rs::ActorRef::new"] = dict(pure=True, ensures=[
-    C("actor_ref.new.fields", "C11", "r.id == id && r.sender.chan() == sender.chan() && r.terminate_sender.chan() == terminate_sender.chan()"),
+    C("actor_ref.new.fields", "C11 C09", "r.id == id && r.sender.chan() == sender.chan() && r.terminate_sender.chan() == terminate_sender.chan() && r.sender.cap() == sender.cap() && r.terminate_sender.cap() == terminate_sender.cap()"),
 ])
 SPECS["actor_ref.rs::ActorRef::identity"] = dict(pure=True, ensures=[
     C("actor_ref.identity.is_id", "C11", "r == self.id")])
@@ -278,6 +278,8 @@ SPAWN_POST = [
     C("spawn.effects_exactly", "C09 C11 C01 C02",
       "final(w).log() =~= spawn_tail(LOG0, r.0.hv(), cap_used, val_id(args))"),
     C("spawn.ref_points_at_spawned_task_channels", "C06 C11", "r.0.mbx_chan() != r.0.ctl_chan()"),
+    C("spawn.mailbox_bound_is_exactly_requested_capacity", "C09", "r.0.sender.cap() == cap_used as nat"),
+    C("spawn.control_channel_bound_is_one", "C06 C09", "r.0.terminate_sender.cap() == 1"),
     C("spawn.identity_fresh", "C11", "r.0.id.id as int >= old(w).id_floor() && final(w).id_floor() > r.0.id.id as int"),
     C("spawn.identity_type_name", "C11", "r.0.id.type_name@ == type_name_spec::<T>()"),
     C("spawn.frame", "C12", "final(w).dl_count() == old(w).dl_count() && final(w).graph() == old(w).graph() && final(w).lock_held() == old(w).lock_held() && final(w).cap_cell() == old(w).cap_cell() && final(w).current_actor() == old(w).current_actor()"),
